@@ -28,6 +28,9 @@ def _import_all(pkgname):
 
 
 def load_contracts():
+    repo = os.environ.get("PYCOMM3_REPO", "/repo")
+    if repo not in sys.path:
+        sys.path.insert(0, repo)
     from pyvc import api
     if not api.REGISTRY and not api.LEMMAS:
         import contracts
